@@ -143,6 +143,16 @@ func (s *Server) ServeWithContext(ctx context.Context, r io.Reader, w io.Writer)
 	}
 }
 
+// drainRefusedStreamInput is called when a request is refused before method
+// dispatch (unresolvable shm pointer). If the named method is a stream method
+// the client has already opened its input stream (it writes before it reads);
+// drain it so it is not read as the next request.
+func (s *Server) drainRefusedStreamInput(r io.Reader, method string) {
+	if info, ok := s.methods[method]; ok && methodTypeString(info.Type) == DispatchMethodStream {
+		drainInputStream(r)
+	}
+}
+
 // serveOne handles one complete RPC request-response cycle.
 func (s *Server) serveOne(ctx context.Context, r io.Reader, w io.Writer, shmConn *shmConnState) error {
 	req, err := ReadRequest(r)
@@ -187,6 +197,7 @@ func (s *Server) serveOne(ctx context.Context, r io.Reader, w io.Writer, shmConn
 				emptySchema := arrow.NewSchema(nil, nil)
 				s.logIPCWriteErr("error-response", req.Method,
 					writeErrorResponse(w, emptySchema, rpcErr, s.serverID, req.RequestID, s.debugErrors))
+				s.drainRefusedStreamInput(r, req.Method)
 				return nil
 			}
 			req.Batch.Release()
@@ -221,6 +232,7 @@ func (s *Server) serveOne(ctx context.Context, r io.Reader, w io.Writer, shmConn
 		emptySchema := arrow.NewSchema(nil, nil)
 		s.logIPCWriteErr("error-response", req.Method,
 			writeErrorResponse(w, emptySchema, rpcErr, s.serverID, req.RequestID, s.debugErrors))
+		s.drainRefusedStreamInput(r, req.Method)
 		return nil
 	}
 
